@@ -75,9 +75,10 @@ pub async fn spawn_full(user: &str, password: &str, level: u128, quic: bool, rul
         std::fs::create_dir_all(&dir).ok()?;
         let cert = crate::ctxutil::cert_path();
         let settings = format!(
-            "listen_address = \"127.0.0.1:{port}\"\nallow_private_network_connections = true\ncredentials_file = {creds}\nrules_file = {rules}\n\n[listen_protocols]\n\n[listen_protocols.http1]\n\n[listen_protocols.http2]\n{quic}",
+            "listen_address = \"127.0.0.1:{port}\"\nallow_private_network_connections = true\n{creds}rules_file = {rules}\n\n[listen_protocols]\n\n[listen_protocols.http1]\n\n[listen_protocols.http2]\n{quic}",
             port = port,
-            creds = toml_str(&dir.join("credentials.toml").to_string_lossy()),
+            // (a credentials file without a client table is refused at start-up: no credentials = no credentials_file line)
+            creds = if creds_text.is_none() && user.is_empty() { String::new() } else { format!("credentials_file = {}\n", toml_str(&dir.join("credentials.toml").to_string_lossy())) },
             rules = toml_str(&dir.join("rules.toml").to_string_lossy()),
             quic = if quic { "\n[listen_protocols.quic]\n" } else { "" },
         );
